@@ -48,6 +48,26 @@ type msSc struct {
 	Clients     [][]cliOp `json:"clients"`
 	Disconnects [][2]int  `json:"disconnects"` // (peer, at ms)
 	FailStreams []int     `json:"fail_streams"` // global indices of NewStream calls that fail
+	DialMs      []int     `json:"dial_ms,omitempty"`   // latency of the i-th NewStream call (cyclic)
+	PickupMs    []int     `json:"pickup_ms,omitempty"` // how long the remote waits before reading its n-th message on a stream (cyclic over stream*4+n)
+	SyncWrites  bool      `json:"sync_writes,omitempty"` // client writes block until the remote has read them (exhausted send window)
+	YieldMs     []int     `json:"yield_ms,omitempty"`    // virtual pause at the n-th yield point reached in the sender bookkeeping (cyclic; build-tag hook)
+}
+
+type cliEvent struct {
+	At      time.Duration
+	Stream  int
+	Peer    int
+	What    string        // open | reset | close
+	OpStart time.Duration // open: when the call that opened the stream started
+	Op      string
+}
+
+type opCtxKey struct{}
+
+type opInfo struct {
+	ID    string
+	Start time.Duration
 }
 
 type srvEvent struct {
@@ -79,6 +99,8 @@ func runMS(t *testing.T, sc *msSc) (res verifsim.Result) {
 	var results []opResult
 	var events []srvEvent
 	var streams []*verifnet.Stream // client ends, by stream index
+	var cliEvents []cliEvent
+	var dcAt [][2]time.Duration // (peer, instant) of each OnDisconnect call
 	streamPeer := map[int]int{}
 	lateThenOK := 0
 	concurrentSamePeer := 0
@@ -98,6 +120,7 @@ func runMS(t *testing.T, sc *msSc) (res verifsim.Result) {
 		var srvWG sync.WaitGroup
 		var srvEnds []*verifnet.Stream
 		nStreams := 0
+		tornDown := false
 		failStream := map[int]bool{}
 		for _, i := range sc.FailStreams {
 			failStream[i] = true
@@ -107,11 +130,18 @@ func runMS(t *testing.T, sc *msSc) (res verifsim.Result) {
 			mu.Lock()
 			idx := nStreams
 			nStreams++
+			streams = append(streams, nil)
+			td := tornDown
 			mu.Unlock()
+			if td {
+				return nil, errors.New("verif: torn down")
+			}
+			if len(sc.DialMs) > 0 {
+				if err := verifnet.WaitContext(ctx, time.Duration(sc.DialMs[idx%len(sc.DialMs)])*time.Millisecond); err != nil {
+					return nil, err
+				}
+			}
 			if failStream[idx] {
-				mu.Lock()
-				streams = append(streams, nil)
-				mu.Unlock()
 				return nil, errors.New("verif: cannot open stream")
 			}
 			pi := 0
@@ -121,16 +151,29 @@ func runMS(t *testing.T, sc *msSc) (res verifsim.Result) {
 				}
 			}
 			cli, srv := verifnet.NewStreamPair(nil, nil, pids[0])
+			cli.SyncWrites = sc.SyncWrites
+			cli.OnEvent = func(e string) {
+				if e == "reset" || e == "close" {
+					mu.Lock()
+					cliEvents = append(cliEvents, cliEvent{At: now(), Stream: idx, Peer: pi, What: e})
+					mu.Unlock()
+				}
+			}
 			mu.Lock()
-			streams = append(streams, cli)
+			streams[idx] = cli
 			streamPeer[idx] = pi
 			srvEnds = append(srvEnds, srv)
+			oi, _ := ctx.Value(opCtxKey{}).(opInfo)
+			cliEvents = append(cliEvents, cliEvent{At: now(), Stream: idx, Peer: pi, What: "open", OpStart: oi.Start, Op: oi.ID})
 			mu.Unlock()
 			srvWG.Add(1)
 			go func() {
 				defer srvWG.Done()
 				r := msgio.NewVarintReaderSize(srv, network.MessageSizeMax)
-				for {
+				for nread := 0; ; nread++ {
+					if len(sc.PickupMs) > 0 {
+						time.Sleep(time.Duration(sc.PickupMs[(idx*4+nread)%len(sc.PickupMs)]) * time.Millisecond)
+					}
 					b, err := r.ReadMsg()
 					if err != nil {
 						return
@@ -190,6 +233,20 @@ func runMS(t *testing.T, sc *msSc) (res verifsim.Result) {
 			}()
 			return cli, nil
 		}
+		if len(sc.YieldMs) > 0 {
+			nYield := 0
+			f := func(string) {
+				mu.Lock()
+				d := sc.YieldMs[nYield%len(sc.YieldMs)]
+				nYield++
+				mu.Unlock()
+				if d > 0 {
+					time.Sleep(time.Duration(d) * time.Millisecond)
+				}
+			}
+			verifYieldFn.Store(&f)
+			defer verifYieldFn.Store(nil)
+		}
 		ms := NewMessageSenderImpl(h, []protocol.ID{"/sim/kad/1.0.0"})
 		var cliWG sync.WaitGroup
 		for ci, ops := range sc.Clients {
@@ -213,6 +270,7 @@ func runMS(t *testing.T, sc *msSc) (res verifsim.Result) {
 					}
 					p := peer.ID(pool.IDs[1+op.Peer%3])
 					r := opResult{ID: id, Op: op, Start: now()}
+					ctx = context.WithValue(ctx, opCtxKey{}, opInfo{ID: id, Start: r.Start})
 					req := &pb.Message{Type: pb.Message_FIND_NODE, Key: []byte(id)}
 					if op.Msg {
 						r.Err = ms.SendMessage(ctx, p, req)
@@ -237,26 +295,46 @@ func runMS(t *testing.T, sc *msSc) (res verifsim.Result) {
 			go func() {
 				defer cliWG.Done()
 				time.Sleep(time.Duration(dc[1]) * time.Millisecond)
+				mu.Lock()
+				dcAt = append(dcAt, [2]time.Duration{time.Duration(1 + dc[0]%3), now()})
+				mu.Unlock()
 				ms.OnDisconnect(context.Background(), peer.ID(pool.IDs[1+dc[0]%3]))
 			}()
 		}
 		done := make(chan struct{})
 		go func() { cliWG.Wait(); close(done) }()
+		hung := false
 		select {
 		case <-done:
 		case <-time.After(2 * time.Hour):
+			hung = true
 			res.Fail("terminates", "C11/sender/hang", "message sender calls did not return within 2 h of virtual time")
 		}
-		// tear down: reset every stream so responders and late readers end
+		// tear down: no new streams, reset every stream so responders, late readers (and hung calls) end
 		mu.Lock()
-		for _, s := range streams {
+		cliEvents = append(cliEvents, cliEvent{At: now(), Stream: -1, What: "teardown"})
+		tornDown = true
+		all := append([]*verifnet.Stream(nil), streams...)
+		mu.Unlock()
+		for _, s := range all {
 			if s != nil {
 				s.Reset()
 			}
 		}
-		mu.Unlock()
 		time.Sleep(time.Minute)
-		srvWG.Wait()
+		if hung {
+			select {
+			case <-done:
+			case <-time.After(time.Hour):
+			}
+		}
+		srvDone := make(chan struct{})
+		go func() { srvWG.Wait(); close(srvDone) }()
+		select {
+		case <-srvDone:
+		case <-time.After(time.Hour):
+			res.Fail("terminates", "C11/harness/responder-left", "a scripted responder did not end after every stream was reset")
+		}
 		verifsim.Quiesce()
 	})
 	if !out.OK() {
@@ -274,6 +352,14 @@ func runMS(t *testing.T, sc *msSc) (res verifsim.Result) {
 			recvOn[e.What[5:]] = append(recvOn[e.What[5:]], e.Stream)
 		}
 	}
+	// a call is bounded by: two pauses at yield points + per attempt (dial + remote picks the request up + 10 s read timeout), one retry
+	maxOf := func(xs []int) (m int) {
+		for _, x := range xs {
+			m = max(m, x)
+		}
+		return
+	}
+	bound := time.Second + time.Duration(2*maxOf(sc.YieldMs)+2*(maxOf(sc.DialMs)+maxOf(sc.PickupMs)+10000))*time.Millisecond
 	for _, r := range results {
 		if r.Op.Msg {
 			continue
@@ -297,8 +383,8 @@ func runMS(t *testing.T, sc *msSc) (res verifsim.Result) {
 			if r.Resp {
 				res.Fail("error-or-reply", "C11/sender/reply-and-error", "request %s returned both a reply and %v", r.ID, r.Err)
 			}
-			// bounded: read timeout 10 s per attempt, one retry
-			if r.End-r.Start > 21*time.Second+time.Duration(r.Op.StartMs)*0 && r.Op.CancelMs == 0 {
+			// bounded: per attempt at most 3 s dial + 3 s until the remote picks the request up + 10 s read timeout; one retry
+			if r.End-r.Start > bound && r.Op.CancelMs == 0 {
 				// time spent waiting for the per-peer lock behind other requests is allowed: each of those is bounded too
 				ahead := 0
 				for _, o := range results {
@@ -306,7 +392,7 @@ func runMS(t *testing.T, sc *msSc) (res verifsim.Result) {
 						ahead++
 					}
 				}
-				if r.End-r.Start > time.Duration(ahead+1)*21*time.Second {
+				if r.End-r.Start > time.Duration(ahead+1)*bound {
 					res.Fail("bounded", "C11/sender/slow-failure", "request %s failed only after %v", r.ID, r.End-r.Start)
 				}
 			}
@@ -347,6 +433,59 @@ func runMS(t *testing.T, sc *msSc) (res verifsim.Result) {
 			} else if resetSeen && strings.HasPrefix(ev, "write:") {
 				res.Fail("no-reuse-after-reset", "C11/stream/write-after-reset", "stream %d written to after it was reset", i)
 				return res
+			}
+		}
+	}
+	// at most one stream per peer: a stream to a peer is opened only once the previous one was reset or closed by the sender.
+	// A disconnect notification replaces the peer's sender; calls that started before it may finish (and retry) on the old
+	// sender while calls that started after it use the new one, so two streams opened by calls that started on different
+	// sides of a disconnect notification may coexist.
+	{
+		live := map[int]*cliEvent{} // peer -> open event of its live stream
+	scan:
+		for i := range cliEvents {
+			e := &cliEvents[i]
+			switch e.What {
+			case "teardown":
+				break scan
+			case "open":
+				if prev := live[e.Peer]; prev != nil {
+					excused := false
+					lo, hi := prev.OpStart, e.OpStart
+					if lo > hi {
+						lo, hi = hi, lo
+					}
+					for _, d := range dcAt {
+						if int(d[0]) == e.Peer && d[1] >= lo && d[1] <= hi {
+							excused = true
+						}
+					}
+					if !excused {
+						var hist []string
+						for _, x := range cliEvents {
+							if x.Peer == e.Peer {
+								hist = append(hist, fmt.Sprintf("%v s%d %s", x.At, x.Stream, x.What))
+							}
+						}
+						for _, x := range events {
+							if x.Peer == e.Peer {
+								hist = append(hist, fmt.Sprintf("%v s%d srv-%s", x.At, x.Stream, x.What))
+							}
+						}
+						for _, x := range results {
+							if 1+x.Op.Peer%3 == e.Peer {
+								hist = append(hist, fmt.Sprintf("%v..%v %s msg=%v err=%v", x.Start, x.End, x.ID, x.Op.Msg, x.Err))
+							}
+						}
+						res.Fail("one-stream", "C11/stream/two-live-streams", "stream %d to peer %d opened at %v by %s (started %v) while stream %d (opened %v by %s, started %v) was neither reset nor closed and no disconnect was notified between the starts of the two calls; history %v", e.Stream, e.Peer, e.At, e.Op, e.OpStart, prev.Stream, prev.At, prev.Op, prev.OpStart, hist)
+						return res
+					}
+				}
+				live[e.Peer] = e
+			case "reset", "close":
+				if prev := live[e.Peer]; prev != nil && prev.Stream == e.Stream {
+					delete(live, e.Peer)
+				}
 			}
 		}
 	}
@@ -425,16 +564,28 @@ func TestVerif_C11_MessageSender(t *testing.T) {
 		Property: "C11", Part: "message-sender",
 		Rule: "rapid: 1-6 client goroutines x 1-4 SendRequest/SendMessage calls to 3 peers at drawn virtual instants, optional cancellation instants, OnDisconnect notifications, failing NewStream calls; each peer is an honest " +
 			"scripted responder that echoes the request's unique id after a drawn delay (0-25 s, i.e. also after the 10 s read timeout: a late reply), resets, closes, writes garbage / an oversize length prefix / a partial frame, or stays silent, " +
-			"separately for the first and the retried attempt; oracle = every successful request returns the echo of its own id written during the call, failures are bounded, exchanges on one stream never overlap, nothing is written after a reset, " +
-			"a stream is never used again after a failed exchange; non-trivial = concurrent requests to one peer with a failed exchange followed by a successful one",
+			"separately for the first and the retried attempt; optionally slow dials (0-3 s), remotes that pick requests up late with client writes blocking until then (exhausted send window), and drawn virtual pauses at the build-tag yield points " +
+			"of the sender bookkeeping (between registering a sender and locking it, before removing a failed one, before a disconnect invalidates), so that the harness owns those interleavings; " +
+			"oracle = every successful request returns the echo of its own id written during the call, failures are bounded, exchanges on one stream never overlap, nothing is written after a reset, " +
+			"a stream is never used again after a failed exchange, and a stream to a peer is only opened once the previous one was reset or closed unless a disconnect was notified between the starts of the two calls; " +
+			"non-trivial = concurrent requests to one peer with a failed exchange followed by a successful one",
 		Gen: func(t *rapid.T) msSc {
 			var sc msSc
 			nc := rapid.IntRange(1, 6).Draw(t, "nClients")
 			for c := 0; c < nc; c++ {
 				ops := rapid.SliceOfN(rapid.Custom(func(t *rapid.T) cliOp {
-					op := cliOp{Peer: rapid.IntRange(0, 2).Draw(t, "peer"), Msg: rapid.IntRange(0, 5).Draw(t, "msg") == 0, StartMs: rapid.IntRange(0, 30000).Draw(t, "start")}
-					if rapid.IntRange(0, 4).Draw(t, "cancel") == 0 {
-						op.CancelMs = rapid.IntRange(1, 15000).Draw(t, "cancelMs")
+					op := cliOp{Peer: rapid.IntRange(0, 2).Draw(t, "peer"), Msg: rapid.IntRange(0, 5).Draw(t, "msg") == 0}
+					if rapid.Bool().Draw(t, "hotStart") {
+						op.StartMs = rapid.SampledFrom([]int{0, 1, 200, 500, 1000, 2000, 5000, 10000, 12000}).Draw(t, "start")
+					} else {
+						op.StartMs = rapid.IntRange(0, 30000).Draw(t, "start")
+					}
+					if rapid.IntRange(0, 3).Draw(t, "cancel") == 0 {
+						if rapid.Bool().Draw(t, "hotCancel") {
+							op.CancelMs = rapid.SampledFrom([]int{1, 100, 300, 700, 1500, 4000}).Draw(t, "cancelMs")
+						} else {
+							op.CancelMs = rapid.IntRange(1, 15000).Draw(t, "cancelMs")
+						}
 					}
 					op.Attempts = rapid.SliceOfN(rapid.Custom(func(t *rapid.T) attempt {
 						return attempt{
@@ -449,7 +600,17 @@ func TestVerif_C11_MessageSender(t *testing.T) {
 			sc.Disconnects = rapid.SliceOfN(rapid.Custom(func(t *rapid.T) [2]int {
 				return [2]int{rapid.IntRange(0, 2).Draw(t, "dcPeer"), rapid.IntRange(0, 40000).Draw(t, "dcAt")}
 			}), 0, 2).Draw(t, "disconnects")
-			sc.FailStreams = rapid.SliceOfN(rapid.IntRange(0, 12), 0, 2).Draw(t, "failStreams")
+			sc.FailStreams = rapid.SliceOfN(rapid.IntRange(0, 12), 0, 3).Draw(t, "failStreams")
+			if rapid.Bool().Draw(t, "slowDials") {
+				sc.DialMs = rapid.SliceOfN(rapid.SampledFrom([]int{0, 0, 1, 300, 1000, 3000}), 1, 6).Draw(t, "dialMs")
+			}
+			if rapid.Bool().Draw(t, "yields") {
+				sc.YieldMs = rapid.SliceOfN(rapid.SampledFrom([]int{0, 0, 1, 5, 600, 2000}), 1, 6).Draw(t, "yieldMs")
+			}
+			if rapid.Bool().Draw(t, "slowPickup") {
+				sc.SyncWrites = true
+				sc.PickupMs = rapid.SliceOfN(rapid.SampledFrom([]int{0, 0, 0, 1, 400, 1000, 3000}), 1, 8).Draw(t, "pickupMs")
+			}
 			return sc
 		},
 		Run: func(t *testing.T, sc msSc) verifsim.Result { return runMS(t, &sc) },
